@@ -168,7 +168,11 @@ def u_finite_discrete(ip):
         return 1
 
     ip.models["jax.random.categorical"] = categorical
+    auto0 = ip.truth(ip.getattr(model, "auto_update"))
     kernel = ip.call(ip.repo(f"{MG}::finite_discrete_gibbs_kernel"), ["k", model, outcomes], {})
+    # building the kernel leaves the USER's model as it was - in particular its auto-update setting: values assigned to it afterwards still refresh
+    # what depends on them, so that model.state stays a coherent state to start from
+    c.oblige("building_the_kernel_leaves_the_users_auto_update_setting", auto0 is True and ip.truth(ip.getattr(model, "auto_update")) is True)
     # a COHERENT model state (as carried by the engine, C09) holding other values than the user's model currently has
     g2 = G(ip)
     k2 = g2.var("k", dist=g2.dist("Prior"), parameter=True)
@@ -192,6 +196,52 @@ def u_finite_discrete(ip):
     c.oblige("draw_is_selected_outcome", isinstance(out, dict) and list(out) == ["k"] and ip.to_U(out["k"]).eq(outcomes[1]))
     c.oblige("categorical_gets_the_transition_key", got.get("key") is key)
     c.oblige("user_model_untouched", ip.to_U(ip.getattr(model.f["_vars"]["k"], "value")).eq(z3.Const("val_k", U)) and ip.to_U(ip.getattr(model.f["_vars"]["m"], "value")).eq(z3.Const("val_m", U)))
+
+
+@unit("C13.finite_discrete_outcomes_from_the_prior", "C13", [f"{MG}::finite_discrete_gibbs_kernel", f"{MG}::finite_discrete_gibbs_kernel.<locals>.transition_fn"],
+      assumptions=["A-RNG / A-VMAP as C13.finite_discrete; T: a tfd.FiniteDiscrete distribution exposes its grid as `.outcomes`, a tfd.Bernoulli has the grid {0, 1}",
+                   "graph: k ~ FiniteDiscrete(outcomes = 3 arbitrary values, arbitrary weights); y ~ Lik(k) observed"])
+def u_outcomes_from_prior(ip):
+    """without an explicit grid the kernel evaluates EVERY outcome of the variable's FiniteDiscrete prior (whatever its weights are): one logit per prior
+    outcome, each the joint log-density at that outcome."""
+    c = ip.ctx
+    install_graph_models(ip)
+    outs = [z3.Const(f"prior_outcome{j}", U) for j in range(3)]
+    JD = "tensorflow_probability.substrates.jax.distributions"
+
+    def fd(ip_, *a, **k):
+        params = [ip_.to_U(k[q]) for q in sorted(k)]
+        return PyObj("tfp:FiniteDiscrete", kind="FiniteDiscrete", outcomes=list(outs), batch_shape=(), dtype="float32", params=params,
+                     log_prob=PyFn(lambda ip2, x: ip2.uf("logp_FD", *params, ip2.to_U(x)), "log_prob"),
+                     probs_parameter=PyFn(lambda ip2: [ip2.ctx.fresh(f"prob{j}", Real) for j in range(3)], "probs_parameter"),
+                     logits_parameter=PyFn(lambda ip2: [ip2.ctx.fresh(f"logit{j}", Real) for j in range(3)], "logits_parameter"))
+
+    ip.models[f"isinstance:{JD}.FiniteDiscrete"] = lambda ip_, x: isinstance(x, PyObj) and x.attrs.get("kind") == "FiniteDiscrete"
+    ip.models[f"isinstance:{JD}.Bernoulli"] = lambda ip_, x: isinstance(x, PyObj) and x.attrs.get("kind") == "Bernoulli"
+    g = G(ip)
+    k = g.var("k", dist=ip.call(g.Dist, [PyFn(fd, "FiniteDiscrete")], {"weights": z3.Const("prior_weights", U)}), parameter=True)
+    y = g.var("y", dist=g.dist("Lik", k), observed=True)
+    model = g.build(y)
+    ip.models["jax.numpy.asarray"] = lambda ip_, x, *a, **kw: list(x) if isinstance(x, (list, tuple)) else x
+    ip.models["jax.vmap"] = lambda ip_, f, **kw: PyFn(lambda ip2, xs: [ip2.call(f, [x], {}) for x in xs], "vmapped")
+    got = {}
+
+    def categorical(ip_, key, logits=None):
+        got["logits"] = logits
+        return 2
+
+    ip.models["jax.random.categorical"] = categorical
+    kernel = ip.call(ip.repo(f"{MG}::finite_discrete_gibbs_kernel"), ["k", model], {})
+    st = ip.getattr(model, "state")
+    out = ip.call(kernel.f["_transition_fn"], [z3.Const("key", U), st], {})
+    lg = got.get("logits")
+    c.oblige("one_logit_per_outcome_of_the_prior", isinstance(lg, list) and len(lg) == 3)
+    if isinstance(lg, list) and len(lg) == 3:
+        W = z3.Const("prior_weights", U)
+        for j, o in enumerate(outs):
+            want = TOTAL(ip.uf("logp_FD", W, o)) + TOTAL(ip.uf("logp_Lik", o, z3.Const("val_y", U)))
+            c.oblige(f"logit_{j}_is_joint_density_at_prior_outcome", to_sort(lg[j], Real) == want)
+    c.oblige("draw_is_the_selected_prior_outcome", isinstance(out, dict) and ip.to_U(out["k"]).eq(outs[2]))
 
 
 # both Gibbs kernels run through GibbsKernel.transition: the draw of the transition function must reach the model state unmodified
